@@ -49,6 +49,16 @@ class Cxx:
         _kind, obj = self.by_fqn[formal.type.target]
         return obj.data + ('' if formal.direction == 'in' else '&')
 
+    def value_type(self, formal: M.Formal) -> str:
+        """The object type behind a parameter (an extern may be declared as `const T&`)."""
+        _kind, obj = self.by_fqn[formal.type.target]
+        data = obj.data.strip()
+        if data.endswith('&'):
+            data = data[:-1].strip()
+            if data.startswith('const '):
+                data = data[len('const '):]
+        return data
+
     def signature(self, ev: M.Event) -> str:
         args = ', '.join(f'{self.formal_type(f)} {f.name}' for f in ev.formals)
         return f'{self.reply_type(ev.reply)}({args})'
@@ -332,7 +342,7 @@ def harness(gen, info: Dict[str, Any], enc: Dict[str, Any], mapping: Dict[str, s
             key = f'{pname}/{ev.name}'
             params = lambda_params(cx, ev)
             names = ', '.join(f.name for f in ev.formals)
-            decl = ' '.join(f'{cx.by_fqn[f.type.target][1].data} {f.name}; {f.name}.id = vmon::fresh_id();'
+            decl = ' '.join(f'{cx.value_type(f)} {f.name}; {f.name}.id = vmon::fresh_id();'
                             for f in ev.formals)
             ins = ', '.join(f'{f.name}.id' for f in ev.formals if f.direction in ('in', 'inout'))
             outs = ', '.join(f'{f.name}.id' for f in ev.formals if f.direction in ('out', 'inout'))
